@@ -182,17 +182,24 @@ func (f *Fact) dump() string {
 }
 
 func genFact(p *prng) *Fact {
+	sg := func() int {
+		v := p.intn(4)
+		if p.chance(1, 5) {
+			return -v - 1
+		}
+		return v
+	}
 	f := &Fact{
-		I: p.intn(4), I8: int8(p.intn(4)), I16: int16(p.intn(4)), I32: int32(p.intn(4)), I64: int64(p.intn(4)),
+		I: sg(), I8: int8(sg()), I16: int16(sg()), I32: int32(sg()), I64: int64(sg()),
 		U: uint(p.intn(4)), U8: uint8(p.intn(4)), U16: uint16(p.intn(4)), U32: uint32(p.intn(4)), U64: uint64(p.intn(4)),
-		F32: float32(p.intn(8)) / 2, F64: float64(p.intn(8)) / 4,
+		F32: float32(p.intn(8))/2 - float32(p.intn(2))*2.5, F64: float64(p.intn(8))/4 - float64(p.intn(2))*7.25,
 		S: pick(p, []string{"", "a", "ab", "Hello", "x y"}), B: p.chance(1, 2),
 		T:  factBaseTime.Add(time.Duration(p.intn(3)) * time.Hour),
-		In: &Inner{X: int64(p.intn(4)), Y: float64(p.intn(6)) / 2, S: pick(p, []string{"in", "", "Q"}), B: p.chance(1, 2)},
+		In: &Inner{X: int64(sg()), Y: float64(p.intn(6))/2 - float64(p.intn(2))*1.75, S: pick(p, []string{"in", "", "Q"}), B: p.chance(1, 2)},
 	}
 	for i := 0; i < 3; i++ {
 		f.Arr = append(f.Arr, int64(p.intn(4)))
-		f.FArr = append(f.FArr, float64(p.intn(6))/2)
+		f.FArr = append(f.FArr, float64(p.intn(6))/2-float64(p.intn(2))*2.25)
 		f.SArr = append(f.SArr, pick(p, []string{"s", "t", ""}))
 	}
 	f.M = map[string]int64{"a": int64(p.intn(4)), "b": int64(p.intn(4))}
